@@ -1243,66 +1243,64 @@ func ruleLatch(c *Ctx) *RuleResult {
 				if n := calleeName(call); n != "sort.Slice" && n != "sort.SliceStable" {
 					continue
 				}
-				mc, ok := call.Call.Args[1].(*ssa.MakeClosure)
-				if !ok {
-					continue
-				}
-				cf, ok := mc.Fn.(*ssa.Function)
-				if !ok {
-					continue
-				}
-				// the captured variables the literal stores true / an error into
-				for fi, fv := range cf.FreeVars {
-					isLatch, isErr := false, false
-					nst := 0
-					for _, cb := range cf.Blocks {
-						for _, cin := range cb.Instrs {
-							st, ok := cin.(*ssa.Store)
-							if !ok || st.Addr != fv {
-								continue
-							}
-							if bv, ok := constBool(st.Val); ok && bv {
-								isLatch = true
-							}
-							if isErrorType(st.Val.Type()) {
-								isLatch, isErr = true, true
-							}
-						}
-					}
-					if !isLatch {
+				for _, mc := range closuresOf(call.Call.Args[1], 0) {
+					cf, ok := mc.Fn.(*ssa.Function)
+					if !ok {
 						continue
 					}
-					for _, cb := range cf.Blocks {
-						for _, cin := range cb.Instrs {
-							st, ok := cin.(*ssa.Store)
-							if !ok || st.Addr != fv {
-								continue
-							}
-							nst++
-							r.Instances++
-							key := fmt.Sprintf("sticky|%s|store#%d", fname(cf), nst)
-							okStore := false
-							if bv, ok := constBool(st.Val); ok && bv {
-								okStore = true
-							}
-							if isErr && (neverNilError(c, st.Val) || nonNilAt(st.Val, cb)) {
-								okStore = true
-							}
-							if okStore {
-								r.ok(key, c.pos(st.Pos()), fname(cf), "the failure latch is only ever set here (never cleared by a later comparison)")
-							} else {
-								r.viol(key, c.pos(st.Pos()), fname(cf), "this store can clear the failure recorded by an earlier comparison (it writes a value that may be false/nil): a failed key evaluation or ill-typed key is forgotten when a later comparison succeeds")
+					// the captured variables the literal stores true / an error into
+					for fi, fv := range cf.FreeVars {
+						isLatch, isErr := false, false
+						nst := 0
+						for _, cb := range cf.Blocks {
+							for _, cin := range cb.Instrs {
+								st, ok := cin.(*ssa.Store)
+								if !ok || st.Addr != fv {
+									continue
+								}
+								if bv, ok := constBool(st.Val); ok && bv {
+									isLatch = true
+								}
+								if isErrorType(st.Val.Type()) {
+									isLatch, isErr = true, true
+								}
 							}
 						}
+						if !isLatch {
+							continue
+						}
+						for _, cb := range cf.Blocks {
+							for _, cin := range cb.Instrs {
+								st, ok := cin.(*ssa.Store)
+								if !ok || st.Addr != fv {
+									continue
+								}
+								nst++
+								r.Instances++
+								key := fmt.Sprintf("sticky|%s|store#%d", fname(cf), nst)
+								okStore := false
+								if bv, ok := constBool(st.Val); ok && bv {
+									okStore = true
+								}
+								if isErr && (neverNilError(c, st.Val) || nonNilAt(st.Val, cb)) {
+									okStore = true
+								}
+								if okStore {
+									r.ok(key, c.pos(st.Pos()), fname(cf), "the failure latch is only ever set here (never cleared by a later comparison)")
+								} else {
+									r.viol(key, c.pos(st.Pos()), fname(cf), "this store can clear the failure recorded by an earlier comparison (it writes a value that may be false/nil): a failed key evaluation or ill-typed key is forgotten when a later comparison succeeds")
+								}
+							}
+						}
+						r.Instances++
+						ord++
+						cell := mc.Bindings[fi]
+						key := fmt.Sprintf("%s|%s#%d", fname(fn), fv.Name(), ord)
+						afterSort(fn, call, key, c.pos(call.Pos()), isErr, "the comparison literal "+fname(cf)+" in "+fv.Name(), func(v ssa.Value) bool {
+							ld, ok := v.(*ssa.UnOp)
+							return ok && ld.Op == token.MUL && ld.X == cell
+						})
 					}
-					r.Instances++
-					ord++
-					cell := mc.Bindings[fi]
-					key := fmt.Sprintf("%s|%s#%d", fname(fn), fv.Name(), ord)
-					afterSort(fn, call, key, c.pos(call.Pos()), isErr, "the comparison literal "+fname(cf)+" in "+fv.Name(), func(v ssa.Value) bool {
-						ld, ok := v.(*ssa.UnOp)
-						return ok && ld.Op == token.MUL && ld.X == cell
-					})
 				}
 			}
 		}
